@@ -8,7 +8,11 @@ from .. import common
 from .. import fam_calib as fc
 from .. import fam_pipeline as fp
 
-THEOREMS = ["C09.resume", "C09.first_sample_initialises", "C10.stats_complete"]
+THEOREMS = ["C09.resume", "C09.first_sample_initialises", "C10.stats_complete",
+            # exactness (C09b): the recorded entry IS the left fold of ema over the per-sample min/max in dataset order
+            "C09.runtime_stats_exact", "C09.runtime_stats_exact_of_init", "C09.runtime_stats_exact_unique", "C09.resumed_stats_exact",
+            "C09.const_stats_exact", "C09.const_stats_minmax", "C09.emaArr_f32", "C09.weights", "C09.emaSpec_order",
+            "C09.Ex.order_matters", "C09.Collision.not_exact", "C09.not_constNamed_of_unique"]
 
 
 def splits(n):
@@ -24,9 +28,15 @@ def run(ctx):
                 "into resumed sessions; every calibrate() call is compared bit-exactly with the Lean model fed with tensor contents captured by "
                 "the harness's own interpreter; independent oracle: EMA(0.95) of true per-sample min/max in dataset order, true min/max of "
                 "constants, resumed == single pass, previous result unmodified; distinct = distinct (model, recipe, dataset)")
-    ctx.explanation = ("resume is proved for every model/recipe/data on the calibration model; the model is tied to Calibrator by exact "
-                       "comparison. The interpreter producing the tensor contents is external (input of the model).")
-    common.proof_side(ctx, THEOREMS, modules=["QProps.C09", "QProps.C10"])
+    ctx.explanation = ("Proved on the calibration model for every model/recipe/dataset: the entry recorded for a runtime tensor is exactly the "
+                       "left fold of the 0.95 moving average over that tensor's per-sample whole-tensor min/max in dataset order, each sample "
+                       "counted once (runtime_stats_exact; needs no tensor of that name to be a constant elsewhere in the model, which follows "
+                       "from the model-wide unique names the library itself requires: runtime_stats_exact_unique; the hypothesis is necessary, "
+                       "Collision.not_exact, replayed on the real code); constants carry their true per-tensor/per-channel min/max "
+                       "(const_stats_exact/_minmax); resumption equals the single pass (resume, resumed_stats_exact); order matters "
+                       "(order_matters). The model is tied to Calibrator by exact comparison of every calibrate() call. The interpreter "
+                       "producing the tensor contents is external (input of the model).")
+    common.proof_side(ctx, THEOREMS, modules=["QProps.C09", "QProps.C09b", "QProps.C10"])
     drv = common.Driver()
     rng = ctx.rng
     n = 150 if ctx.tier == "quick" else 1200
